@@ -8,8 +8,9 @@
    compiler on every run): Arith/PromoteProofs.v proves, by computation over the completely
    enumerated tables, that these functions and the tables agree cell by cell.
 
-   The model is FAITHFUL to the pinned tree, including its defects (marked DEFECT below); the
-   property statements over the tables are in PromoteProofs.v.
+   The model is FAITHFUL to the tree, including the cases for which the emitter has no opcode
+   (enum operands of comparisons and %: None = assert(0)); the property statements over the
+   tables are in PromoteProofs.v.
 
    Then: source expressions (`sexpr`), elaboration (insertion of EXPR_CONV nodes) and the
    typechecker's view of an elaborated tree (`ty_of`).  Definitions only. *)
@@ -58,15 +59,13 @@ Definition conv_string (l r : ty) : bool :=
   | _, _ => false
   end.
 
-(* expr_conv_ass_type: (comb of the assignment expression, conversion around the right side).
-   DEFECT (pinned tree): the cell int <- double inserts DOUBLE_TO_INT but sets the
-   assignment's comb to DOUBLE, so OP_ASS_DOUBLE is emitted on int cells. *)
+(* expr_conv_ass_type: (comb of the assignment expression, conversion around the right side) *)
 Definition conv_ass (l r : ty) : option (ty * option conv) :=
   match l, r with
   | TInt, TInt => Some (TInt, None)
   | TInt, TLong => Some (TInt, Some L2I)
   | TInt, TFloat => Some (TInt, Some F2I)
-  | TInt, TDouble => Some (TDouble, Some D2I)          (* sic *)
+  | TInt, TDouble => Some (TInt, Some D2I)
   | TInt, TEnum => Some (TInt, None)
   | TLong, TInt => Some (TLong, Some I2L)
   | TLong, TLong => Some (TLong, None)
@@ -179,7 +178,7 @@ Definition emit_bin (o : binop) (l r res : ty) : option vmop :=
       end
   | OEq | ONe =>
       match l, r with
-      | TBool, TBool => Some (VBin OEq TInt)     (* DEFECT: expr_neq_emit also emits OP_EQ_INT *)
+      | TBool, TBool => Some (VBin o TInt)
       | TInt, TInt | TLong, TLong | TFloat, TFloat | TDouble, TDouble
       | TChar, TChar | TString, TString => Some (VBin o l)
       | TEnum, TEnum => Some (VBin o TInt)
